@@ -206,7 +206,11 @@ func topologies(thorough bool) []string {
 		bodies = bodies[:7]
 	}
 	var out []string
-	for _, op := range []string{"{a}", "{o{...A}}", "{o{...A ...B}}", "{o{o{...B}}}", "query Q{o{...A}} query R{o{...B}}", "{...A}"} {
+	for _, op := range []string{"{a}", "{o{...A}}", "{o{...A ...B}}", "{o{o{...B}}}", "query Q{o{...A}} query R{o{...B}}", "{...A}",
+		// the same spreads below same-key fields of two object types (compared as mutually exclusive)
+		"{i{... on O{o{...A}} ... on P{o{...A}}}}", "{i{... on O{o{...A}} ... on P{o{...B}}}}",
+		// spreads behind a variable-driven directive
+		"query($v:Boolean!){o{...A @include(if:$v) ...A @skip(if:$v) ...B @include(if:$v)}}"} {
 		for _, a := range bodies {
 			for _, b := range bodies {
 				out = append(out, fmt.Sprintf("%s fragment A on O{%s} fragment B on O{%s}", op, a, b))
